@@ -447,6 +447,37 @@ sim::CaseResult IoSim::run(const sim::Options &, const Json &plan)
         sp->copyToReals(reals2, r);
         if (reals != reals2)
             res.violate(P + ".reals-roundtrip-not-equal", fmt("state %d: copyToReals(copyFromReals(copyToReals(s))) differs", i));
+        // the index-based view of the same reals (what ScopedState::reals(), operator[] and operator=(vector) use): value k
+        // is real k of copyToReals, there are exactly reals.size() of them, and writing them through the indices reproduces the state
+        if (res.vclass.empty())
+        {
+            bool okIdx = true;
+            for (unsigned k = 0; k < reals.size() && okIdx; k++)
+            {
+                const double *a = sp->getValueAddressAtIndex(s, k);
+                okIdx = a != nullptr && (*a == reals[k] || (*a != *a && reals[k] != reals[k]));
+            }
+            if (okIdx && sp->getValueAddressAtIndex(s, (unsigned)reals.size()) != nullptr)
+                okIdx = false;
+            if (!okIdx)
+                res.violate(P + ".reals-by-index-differ", fmt("state %d: getValueAddressAtIndex does not address the reals of copyToReals (%zu reals)", i, reals.size()));
+            else
+            {
+                ob::ScopedState<> ss1(sp), ss2(sp);
+                ss1 = s;
+                if (ss1.reals() != reals)
+                    res.violate(P + ".reals-by-index-differ", fmt("state %d: ScopedState::reals() differs from copyToReals", i));
+                else
+                {
+                    ss2 = states[(size_t)((i + 1) % n)];
+                    ss2 = reals;
+                    std::vector<double> reals3;
+                    sp->copyToReals(reals3, ss2.get());
+                    if (reals3 != reals)
+                        res.violate(P + ".reals-by-index-differ", fmt("state %d: ScopedState::operator=(vector of reals) does not reproduce the reals", i));
+                }
+            }
+        }
         sp->freeState(c);
         sp->freeState(cl);
         sp->freeState(d);
